@@ -6,6 +6,7 @@ pub mod eddsa;
 pub mod edwards;
 pub mod field;
 pub mod group_ops;
+pub mod memory;
 pub mod montgomery;
 pub mod ristretto;
 pub mod scalar;
@@ -53,6 +54,9 @@ pub fn oracle(req: &Req, got: &Resp) -> Result<(), String> {
     }
     if req.op.starts_with("v2.") || req.op.starts_with("vi.") {
         return vector::oracle(req, got);
+    }
+    if req.op.starts_with("mem.") {
+        return memory::oracle(req, got);
     }
     if req.op.starts_with("gp.") {
         return group_ops::oracle(req, got);
